@@ -13,8 +13,8 @@ CLAIMS = {
    text="Kernel claim, appendData only: it rejects an axis outside the rank and any rank or off-axis shape mismatch without touching the array, otherwise grows the extent along the axis by exactly count[axis] and then writes count elements at offset (0,..,old extent[axis],..,0) - 'append = grow then write at old end' as a postcondition for every extent and count.",
    note=NOTE_COMMON + "Kernel only (quick tier ranks 0..4, thorough 0..32): what HDF5 stores and returns, element types, chunking, compression, strings, reopen are not covered; the calibrated read path and the value of the polynomial are not covered (symbolic double products do not terminate in CBMC)."),
  'C05': dict(cat='proof', ref='DESIGN.md 7 (C05), 12',
-   text="Kernel claim, gates and dispatch only: taggedData(Tag, array) hands out a DataView only for a block inside the array (offset+count within the extent in every dimension, in the integers) and raises otherwise; featureData(Tag, feature) cuts tagged features like references and returns untagged and indexed features whole (offset 0, count = extent), refuses a feature without data; Tag::getFeature / getReference / featureData(tag, index) raise OutOfBounds for every index past the end and forward every valid one.",
-   note=NOTE_COMMON + "KERNEL ONLY: getOffsetAndCount (per-dimension index assembly, padding of unspecified dimensions, point-tag fallback, unit scaling) is behind a contract that leaves its result unconstrained, so the sentence 'exactly the elements with p <= c <= p+e' is NOT decided here (the per-axis index rules are C07). Handles are abstracted to the state read; DataView constructor and positionAndExtentInData contracts are assumed here (the first is proved in C17)."),
+   text="Kernel claim: the body of the per-dimension assembly loop of getOffsetAndCount(Tag) (region unit): the region asked of the axis is [position, position+extent] in the given mode, a region with elements yields offset = first index and count = last-first+1, a zero extent yields the first element at or after the position (GreaterOrEqual), an empty region raises, other dimensions untouched; taggedData(Tag, array) hands out a DataView only for a block inside the array (offset+count within the extent in every dimension, in the integers) and raises otherwise; featureData(Tag, feature) cuts tagged features like references and returns untagged and indexed features whole (offset 0, count = extent), refuses a feature without data; Tag::getFeature / getReference / featureData(tag, index) raise OutOfBounds for every index past the end and forward every valid one.",
+   note=NOTE_COMMON + "KERNEL ONLY: in getOffsetAndCount only the loop body is under contract - the length normalisation / padding of unspecified dimensions, unit defaults and scaling before the loop are NOT covered, and the two index lookups are ghost inputs whose rules are C07's contracts (assumed here, not connected), so 'exactly the elements with p <= c <= p+e' is decided only up to those assumptions. Handles are abstracted to the state read; DataView constructor and positionAndExtentInData contracts are assumed here (the first is proved in C17)."),
  'C06': dict(cat='proof', ref='DESIGN.md 7 (C06), 12',
    text="Kernel claim, two statement regions of dataAccess.cpp: (A) the per-position, per-dimension assembly in getOffsetAndCount(MultiTag): a region with elements yields offset = first index and count = last-first+1, a point (no or zero extent) yields the first element at or after the position, an empty region or a point beyond the axis raises, and no other dimension and no other vector is touched; (B) the Indexed-feature branch: slice i along the first dimension (offset (i,0,..), count (1, extent[1..])), OutOfBounds for an index past the first dimension.",
    note=NOTE_COMMON + "KERNEL ONLY: reading the positions/extents rows, padding of unspecified dimensions, unit scaling, the index-list gate (max_element) and 'list = map(single)' are not covered; the index pair of a region and GreaterOrEqual(position) are ghost inputs (their rules are C07's contracts, not connected here). Region B: ranks 0..3 quick, 0..32 thorough."),
